@@ -64,6 +64,7 @@ func main() {
 		nomask   = flag.Bool("nomask", false, "do not mask known findings (witness replay)")
 		caseTO   = flag.Duration("case-timeout", 60*time.Second, "per-case watchdog")
 		verbose  = flag.Bool("v", false, "verbose replay output")
+		nshards  = flag.Int("shards", 16, "total number of shards (for deterministic sweeps)")
 		survey   = flag.Bool("survey", false, "triage mode: record all unlisted discrepancies, never fail")
 	)
 	flag.Parse()
@@ -122,6 +123,21 @@ func main() {
 	var last *core.Failure
 	t := &tb{}
 	passed := 0
+	// deterministic complete sweeps (exhaustive sub-spaces), if the property has one
+	if sw, ok := p.(interface {
+		Sweep(env *core.Env, shards int) *core.Failure
+	}); ok {
+		if f := sw.Sweep(env, *nshards); f != nil {
+			rep.Status = "violation"
+			rep.Failure = f
+			rep.WallS = time.Since(start).Seconds()
+			if *out != "" {
+				_ = env.WriteReport(*out, rep)
+			}
+			os.Exit(1)
+		}
+		caseStart.Store(0)
+	}
 	rapid.Check(t, func(rt *rapid.T) {
 		c := p.Gen(rt, env)
 		env.Journal(c)
